@@ -58,7 +58,7 @@ def replay(rec: Dict[str, Any]) -> List[Tuple[str, Dict[str, Any], str]]:
                     continue
                 disc = _edits(m, node, tbl, d, quick=bool(sname))
                 if not disc and not sname:
-                    disc = _nested_twice(m, node, tbl, d)
+                    disc = _nested_twice(m, node, tbl, d) or _replace_lookalike(m, node, tbl, d)
                     if disc:
                         disc = "pointer-object:" + disc
                 if disc:
@@ -146,6 +146,39 @@ def _nested_twice(m: Any, node: Dict[str, Any], tbl: DocTable, d: int) -> str:
             return "callers-value-was-modified"
     except BaseException as e:  # noqa: BLE001
         return f"replace-with-a-container-raised-{exc_family(e)}"
+    return ""
+
+
+def _lookalike(v: Any) -> Any:
+    """The value with true/false and 1/0 exchanged at every depth (equal to the host, different JSON), or None if there is none."""
+    if v is True or v is False:
+        return int(v)
+    if isinstance(v, int) and v in (0, 1):
+        return bool(v)
+    if isinstance(v, float) and v in (0.0, 1.0):
+        return bool(v)
+    if isinstance(v, list):
+        w = [_lookalike(x) for x in v]
+        return [a if b is None else b for a, b in zip(v, w)] if any(b is not None for b in w) else None
+    if isinstance(v, dict):
+        w = {k: _lookalike(x) for k, x in v.items()}
+        return {k: (v[k] if w[k] is None else w[k]) for k in v} if any(b is not None for b in w.values()) else None
+    return None
+
+
+def _replace_lookalike(m: Any, node: Dict[str, Any], tbl: DocTable, d: int) -> str:
+    from jsonpath import JSONPatch
+
+    new = _lookalike(m.obj)
+    if new is None:
+        return ""
+    want = canon(_subst(node["replaced"], tag(new)))
+    try:
+        r = JSONPatch().replace(m.pointer(), new).apply(tbl.fresh(d))
+        if canon(tag(r)) != want:
+            return "replace-by-a-boolean-number-look-alike-left-the-old-value"
+    except BaseException as e:  # noqa: BLE001
+        return f"replace-by-a-look-alike-raised-{exc_family(e)}"
     return ""
 
 
